@@ -8,6 +8,26 @@ BASE_OFF = ("cd /repo && /venv/bin/python -m pytest -ra -q -p no:cacheprovider -
             "--continue-on-collection-errors")
 
 CHECKS = {
+    "C01": dict(
+        technique="runtime monitoring: reference-model monitor (value model vs every accessor) over generated types, values, input forms and poisoned placements",
+        text="Held on the observed executions: each generated object is re-read through every field/item/nested accessor, to_nplike/to_nparray/_to_dict/len/_shape and compared bit-exactly with the model value; byte-exact icontract contracts on the copy primitives ride along. Exploration bounded by depth/extent.",
+        note="Trusted: numpy scalar conversions; the harness' domain restrictions listed in the evidence assumptions.", ref="2 C01"),
+    "C03": dict(
+        technique="runtime monitoring: write log + whole-buffer byte diff against reserved extents (allocation log, independent decoder's extent tree)",
+        text="Held on the observed constructions and fitting assignments: every logged primitive write and every changed byte lies in the reserved extent or an allocation made during the operation; reported/allocated/documented/decoded sizes agree; extent tree nesting and sibling disjointness; stamped neighbours intact.",
+        note="Trusted: wrappers on the buffer primitives see all library writes; writes through to_nplike views are caught by the byte diff only.", ref="2 C03"),
+    "C05": dict(
+        technique="runtime monitoring: independent observer (decoder written from the format documents only) over raw bytes of generated objects",
+        text="Held on the observed objects: a decoder that shares no code or class attributes with the library recovers the model value from the raw buffer bytes with no format violation.", 
+        note="Where types.rst and the property text disagree on Ref encoding, the property text wins. Padding bytes are not inspected.", ref="2 C05"),
+    "C06": dict(
+        technique="runtime monitoring: differential observation of constructor handle vs _from_buffer view (model comparison, structural attributes, cross write/read)",
+        text="Held on the observed objects: root and every nested compound compared between handle, view-through-handle and fresh view; writes through one side read back through the other.",
+        note="Internal caches (_offsets) are not compared, only observable attributes (_offset,_shape,_strides,_size,len) and values.", ref="2 C06"),
+    "C13": dict(
+        technique="runtime contracts (icontract pre/postconditions with whole-buffer snapshots) under small-scope exhaustive enumeration",
+        text="Every primitive call of the enumerated scope (both buffer kinds, capacity<=12/20, all offsets/lengths/source offsets, 10 dtypes, C/F/strided/list sources, same/different context) satisfied byte-exact contracts; extracted copies independent, typed views aliasing exactly. Exhaustive only within that scope.",
+        note="Sources of update_from_buffer are byte-format buffers; 0-d arrays excluded.", ref="2 C13"),
     "C04": dict(
         technique="runtime monitoring: allocation-log listener with stamped live regions (invariant at a hook)",
         text="Held on every event of the observed allocator histories (random walks + exhaustive small scope): "
